@@ -53,6 +53,8 @@ def goals(gs, names, ctx):
 def clause(gs, names, ctx):
     """A clause inside an operator body: a single goal is written bare, several as [g1, g2]."""
     if len(gs) == 1 and gs[0][0] != "conj":
+        if ctx.get("bracket_literals") and gs[0][0] in ("succeed", "fail"):
+            return "[" + goal(gs[0], names, ctx) + "]"      # `[true]` instead of the bare `true` (same meaning)
         return goal(gs[0], names, ctx)
     return "[" + goals(gs, names, ctx) + "]"
 
@@ -178,7 +180,8 @@ struct Tree(LTerm, LTerm, LTerm);
 
 def emit_case(n, case):
     names = case.get("names", {})
-    ctx = {"defs": case.get("defs", {}) or {}, "mangle": "r%d_" % n, "colls": [], "extra": []}
+    ctx = {"defs": case.get("defs", {}) or {}, "mangle": "r%d_" % n, "colls": [], "extra": [],
+           "bracket_literals": bool(case.get("bracket_literals"))}
     out = []
     for dname, d in ctx["defs"].items():
         params = ", ".join("%s: LTerm<U, E>" % vname(p, names) for p in d["params"])
